@@ -18,6 +18,7 @@ import (
 	"github.com/milvus-io/milvus/pkg/mq/common"
 	"github.com/milvus-io/milvus/pkg/mq/msgdispatcher"
 	"github.com/milvus-io/milvus/pkg/mq/msgstream"
+	"github.com/milvus-io/milvus/pkg/util/funcutil"
 	"google.golang.org/protobuf/proto"
 )
 
@@ -169,11 +170,39 @@ func (m *MQ) filter(vchannel string, pos *msgpb.MsgPosition) ([]*msgstream.MsgPa
 	if (pos == nil || len(pos.MsgID) == 0) && m.LatestIsPublished {
 		first = m.Published(vchannel)
 	}
+	var physBefore uint64 // position of another vchannel: every own message stamped up to this time lies physically before it
 	if pos != nil && len(pos.MsgID) > 0 {
+		found := false
 		for i, p := range log {
 			for _, ep := range p.EndPositions {
 				if string(ep.MsgID) == string(pos.MsgID) {
 					first = i + 1
+					found = true
+				}
+			}
+		}
+		if !found {
+			// The vchannels of one physical channel share one physical log (time ordered, the ticks are common): the
+			// message id of another vchannel's pack end is a valid position in it. A stream registered there starts
+			// behind everything that is physically before that tick.
+			pch := funcutil.ToPhysicalChannel(vchannel)
+			for ov, olog := range m.logs {
+				if ov == vchannel || funcutil.ToPhysicalChannel(ov) != pch {
+					continue
+				}
+				for _, p := range olog {
+					for _, ep := range p.EndPositions {
+						if string(ep.MsgID) == string(pos.MsgID) {
+							physBefore = p.EndTs
+						}
+					}
+				}
+			}
+			if physBefore != 0 {
+				for i, p := range log {
+					if p.EndTs <= physBefore {
+						first = i + 1
+					}
 				}
 			}
 		}
@@ -182,6 +211,15 @@ func (m *MQ) filter(vchannel string, pos *msgpb.MsgPosition) ([]*msgstream.MsgPa
 	skipping := pos != nil && pos.Timestamp != 0
 	for _, p := range log[first:] {
 		c := ClonePack(p)
+		if physBefore != 0 {
+			var kept []msgstream.TsMsg
+			for _, msg := range c.Msgs {
+				if msg.Type() == commonpb.MsgType_TimeTick || msg.EndTs() > physBefore {
+					kept = append(kept, msg)
+				}
+			}
+			c.Msgs = kept
+		}
 		if skipping {
 			var kept []msgstream.TsMsg
 			for _, msg := range c.Msgs {
